@@ -169,6 +169,13 @@ def chunk_bytes2(chunk, acc):
             check_bytes(acc, cp, bytes([a, b]), n % every == 0, "b2")
     if chunk["hi"] == 0:
         check_bytes(acc, cp, b"", True, "b0")
+    if chunk["hi"] == 0x20:
+        # every pair and triple over the characters the text renderer itself treats specially, always rendered with
+        # as_text() and read back (quick runs only every 8th of the 65 536 pairs through the renderer)
+        special = (0x20, 0x3B, 0x7B, 0x7D, 0x23, 0x22, 0x5C, 0x0A, 0x09, 0x27)
+        for w in sequences(special, 3, 2):
+            acc.states += 1
+            check_bytes(acc, cp, bytes(w), True, "special")
     acc.sample({"bytes": f"{chunk['hi']:02x}22", "literal": cp.value_to_string(bytes([chunk["hi"], 0x22]))})
 
 
